@@ -29,6 +29,9 @@ def if_then_else(cond, truev, falsev):
     
     if isinstance(truev, LinCombFxp):
         falsev = LinCombFxp._ensurefxp(falsev)
+    if isinstance(truev, LinCombBool) and isinstance(falsev, LinCombBool):
+        # a selection between two booleans is a boolean (e.g. a flag kept in a BranchingValues variable)
+        return LinCombBool(falsev.lc + cond * (truev.lc - falsev.lc), False)
     return falsev + cond * (truev - falsev)
 
 def _tobool(cond):
